@@ -608,7 +608,7 @@ impl C03 {
                 }
             }
         }
-        // flat documents on a small (64 KiB) thread stack, first thing in a fresh process (lazily built
+        // flat documents on a small (48 KiB) thread stack, first thing in a fresh process (lazily built
         // unit / zone tables are built on that stack; the unchanged tree needs < 32 KiB)
         for (sink, d) in [
             ("zinc-small-stack", "5kW"),
@@ -620,8 +620,8 @@ impl C03 {
             ("json-small-stack", "{\"_kind\":\"grid\",\"meta\":{\"ver\":\"3.0\"},\"cols\":[{\"name\":\"a\"}],\"rows\":[{\"a\":1}]}"),
         ] {
             let mut c = Case::new("C03", sink, d.as_bytes());
-            c.extra.insert("stack_kb".into(), 64u64.into());
-            c.origin = format!("small stack 64 KiB: {d}");
+            c.extra.insert("stack_kb".into(), 48u64.into());
+            c.origin = format!("small stack 48 KiB: {d}");
             cases.push(c);
         }
         // length ladders: one construct repeated n times, no nesting
